@@ -44,6 +44,15 @@ def handleRes (op : String) (args : List String) : Option String :=
       let tot := (entries.map (·.2)).sum
       pure s!"{showCost r.isSome c} {entries.length} {tot}"
     | _ => none
+  | "c10.bundleverify" => match args with
+    | [h, _] => do
+      let bs ← ofHex h
+      let (r, c, entries) := bundleRead bs
+      -- NewVerifier / VerifyExchange work on what was read: signed-subset decoding and MI decoding of bodies already charged
+      -- per byte by the reader skeleton; charge them once more
+      let tot := (entries.map (·.2)).sum
+      pure s!"{showCost r.isSome { alloc := 2 * c.alloc, steps := 2 * c.steps }} {entries.length} {tot}"
+    | _ => none
   | "c10.sh" => match args with
     | [k, h] => do
       let bs ← ofHex h
